@@ -702,6 +702,8 @@ func TestDeliveryEquivalence(t *testing.T) {
 		withheld := map[*ce.Node]bool{}
 		var victim *ce.Node
 		var withheldIdx []int
+		var below []*ce.Node
+		reconsider := false
 		run := func(headersFirst bool) (*ce.Node, *big.Int) {
 			env, err := ce.NewEnv(tr.Params, ce.EnvOpt{UtxoCacheMaxSize: 1 << 20})
 			if err != nil {
@@ -742,6 +744,26 @@ func TestDeliveryEquivalence(t *testing.T) {
 					t.Fatalf("headersFirst=%v after InvalidateBlock(node%d): %v\nwithheld blocks: %v\ntree: %s", headersFirst, victim.Idx, err, withheldIdx, tr.Describe())
 				}
 			}
+			// ... and taken back again: first a block below it (when the run knows one), then the block itself
+			if victim != nil && reconsider && sel.Manual[victim] {
+				for _, d := range below {
+					if sel.InIndex(d) && !sel.Murky[d] {
+						sel.Reconsider(d)
+						h := d.Hash
+						_ = env.Chain.ReconsiderBlock(&h)
+						if err := ce.CheckTip(env, sel); err != nil {
+							t.Fatalf("headersFirst=%v after ReconsiderBlock(node%d) below the invalidated node%d: %v\nwithheld blocks: %v\ntree: %s", headersFirst, d.Idx, victim.Idx, err, withheldIdx, tr.Describe())
+						}
+						break
+					}
+				}
+				sel.Reconsider(victim)
+				h := victim.Hash
+				_ = env.Chain.ReconsiderBlock(&h)
+				if err := ce.CheckTip(env, sel); err != nil {
+					t.Fatalf("headersFirst=%v after ReconsiderBlock(node%d) (invalidated before, a block below it reconsidered in between): %v\nwithheld blocks: %v\ntree: %s", headersFirst, victim.Idx, err, withheldIdx, tr.Describe())
+				}
+			}
 			return sel.Tip, sel.Tip.WorkSum
 		}
 		// blocks that never arrive, and a block to invalidate at the end (drawn once, used by both runs)
@@ -755,6 +777,17 @@ func TestDeliveryEquivalence(t *testing.T) {
 		}
 		if rapid.Bool().Draw(t, "invalidate") {
 			victim = tr.Nodes[rapid.IntRange(1, len(tr.Nodes)-1).Draw(t, "victim")]
+			reconsider = rapid.Bool().Draw(t, "reconsiderAfterwards")
+			for _, n := range tr.Nodes {
+				if n != victim && victim.IsAncestorOf(n) {
+					below = append(below, n)
+				}
+			}
+			if len(below) > 1 {
+				// a generated block below the victim comes first
+				k := rapid.IntRange(0, len(below)-1).Draw(t, "reconsiderBelow")
+				below[0], below[k] = below[k], below[0]
+			}
 		}
 		t1, w1 := run(false)
 		t2, w2 := run(true)
